@@ -170,6 +170,8 @@ def build(ctx, cfg):
         d = {TK: SInt(p.t0[s]), TID: SInt(p.tid0[s]), LID: SInt(p.lid0[s])}
         if multi_pos:
             d["y"], d["x"] = float(s), float(2 * s)
+        elif len(shape) == 4:
+            d[POS] = [float(s), float(2 * s), float(3 * s)]  # 3D+t
         else:
             d[POS] = [float(s), float(2 * s)]
         if with_seg:
@@ -192,7 +194,7 @@ def build(ctx, cfg):
             if cfg.get("max_label") is not None:
                 ctx.add(x <= cfg["max_label"])  # bounded run: unmodelled numpy calls are followed by realisation
     scale_none = cfg.get("scale", "none") == "none"
-    scale = None if scale_none else [1.0, 2.0, 3.0]
+    scale = None if scale_none else [1.0, 2.0, 3.0, 4.0][:len(shape)]
     tr = SolutionTracks(nx.DiGraph(), segmentation=None if seg is None else np.zeros(shape, dtype=np.int64),
                         ndim=len(shape), time_attr=TK, tracklet_attr=TID, lineage_attr=LID,
                         pos_attr=["y", "x"] if multi_pos and seg is None else None, scale=scale)
@@ -400,6 +402,8 @@ def run_queries(ctx, p):
     tr.get_times([node])
     tr.get_positions([node])
     tr.get_position(node)
+    tr.get_positions([node], incl_time=True)
+    tr.get_position(node, incl_time=True)
     tr.get_node_attr(node, TID)
     tr.get_nodes_attr([node], TK)
     tr.get_track_id(node)
